@@ -2,6 +2,8 @@ import Account.Lifecycle
 import Account.OrderLemmas
 import Account.LifecycleLemmas
 import Account.TreeLemmas
+import Account.InterpLemmas
+import Account.ContainerLemmas
 /-!
 # C11 — Exact dispatch; lifecycle phases run in order and short-circuit on error
 
@@ -111,44 +113,56 @@ example :
 
 /-! ## Lifecycle -/
 
+/-- **The recursive early-exit interpreter equals the flattened sequence** (`run_tree_eq_flat`).
+`runI` runs `decode_accounts` / `validate_accounts` / `cleanup_accounts` the way the generated
+code does — recursing through structs, containers and options, every nested call followed by `?`,
+a struct's field blocks laid out in the macro's order — and is what `c11_model` executes; `run`
+executes the flattened step lists of the decoded shape. They agree on every input. -/
+theorem run_tree_eq_flat (ix : Ix) (plan : FaultPlan) (data : List Nat) (accts : List Bool) :
+    runI ix plan data accts = run ix plan data accts :=
+  runI_eq_run ix plan data accts
+
 /-- The expected steps with every struct's fields validated in DECLARATION order; by
 `validate_each_block_once` a permutation of `expected`. Only used to state "ids are distinct". -/
-def expectedDecl (ix : Ix) (data : List Nat) : Trace :=
-  [⟨.args, ix.id, [], none, none⟩]
-  ++ events ix.set.decodeSteps
-  ++ events ix.set.validateStepsDecl
-  ++ [processEvent ix data]
-  ++ events ix.set.cleanupSteps
+def expectedDecl (ix : Ix) (data : List Nat) (accts : List Bool) : Trace :=
+  [argsEvent ix]
+  ++ events (ix.shape accts).decodeSteps
+  ++ events (ix.shape accts).validateStepsDecl
+  ++ [processEvent ix data (ix.shape accts)]
+  ++ events (ix.shape accts).cleanupSteps
 
 /-- **Phases run in order, each step at most once, and nothing runs after the first failure** —
-for every instruction (any nesting of account sets, hooks, skipped fields), every fault plan,
-every argument data and every number of accounts:
+for every instruction (any nesting of structs, containers, options, hooks, skipped fields), every
+fault plan, every argument data and every account list:
 * the trace is a prefix of `expected` = `[args] ++ decode (declaration order, depth first) ++
-  validate (per struct: before_validation, the fields' blocks in `order`, extra_validation) ++
-  [process] ++ cleanup (declaration order, each struct followed by its extra_cleanup)`;
-* if the steps are pairwise distinct (distinct probe / struct ids; field names distinct per
-  struct) no step occurs twice in it;
+  validate (per struct: before_validation, the fields' blocks in `order`, extra_validation; per
+  container its present elements in order) ++ [process] ++ cleanup (declaration order, each struct
+  followed by its extra_cleanup)`;
+* if the steps are pairwise distinct (distinct ids; field names distinct per struct) no step occurs
+  twice in it;
 * a successful run performed every step and no step was due to fail;
 * a failed run stopped exactly at the first step that was due to fail (all earlier steps were not)
   and returned that step's error, converted by `toProgramError`. -/
-theorem phases_ordered (ix : Ix) (plan : FaultPlan) (data : List Nat) (naccts : Nat) :
-    (run ix plan data naccts).1 <+: expected ix data ∧
-    (ix.set.namesOK = true → (expectedDecl ix data).Nodup → (run ix plan data naccts).1.Nodup) ∧
-    ((run ix plan data naccts).2 = .ok →
-      (run ix plan data naccts).1 = expected ix data ∧
-      ∀ o ∈ failures ix plan data naccts, o = none) ∧
-    (∀ c, (run ix plan data naccts).2 = .err c → ∃ i er,
-      (failures ix plan data naccts)[i]? = some (some er) ∧
-      (∀ j, j < i → (failures ix plan data naccts)[j]? = some none) ∧
-      (run ix plan data naccts).1 = (expected ix data).take (i + 1) ∧
+theorem phases_ordered (ix : Ix) (plan : FaultPlan) (data : List Nat) (accts : List Bool) :
+    (runI ix plan data accts).1 <+: expected ix data accts ∧
+    ((ix.shape accts).namesOK = true → (expectedDecl ix data accts).Nodup →
+      (runI ix plan data accts).1.Nodup) ∧
+    ((runI ix plan data accts).2 = .ok →
+      (runI ix plan data accts).1 = expected ix data accts ∧
+      ∀ o ∈ failures ix plan data accts, o = none) ∧
+    (∀ c, (runI ix plan data accts).2 = .err c → ∃ i er,
+      (failures ix plan data accts)[i]? = some (some er) ∧
+      (∀ j, j < i → (failures ix plan data accts)[j]? = some none) ∧
+      (runI ix plan data accts).1 = (expected ix data accts).take (i + 1) ∧
       c = toProgramError er) := by
-  have h := walk_spec (steps ix plan data naccts)
+  rw [runI_eq_run]
+  have h := walk_spec (steps ix plan data accts)
   rw [← run_eq_walk, steps_events, steps_failures] at h
   refine ⟨h.1, ?_, h.2.1, h.2.2⟩
   intro hok hnd
-  have hperm : (expected ix data).Perm (expectedDecl ix data) := by
+  have hperm : (expected ix data accts).Perm (expectedDecl ix data accts) := by
     unfold expected expectedDecl events
-    have := (validateSteps_perm_decl ix.set hok).filterMap (·.ev)
+    have := (validateSteps_perm_decl (ix.shape accts) hok).filterMap (·.ev)
     exact ((this.append_left _).append_right _).append_right _
   exact (h.1.sublist).nodup (hperm.nodup_iff.mpr hnd)
 
@@ -156,26 +170,27 @@ theorem phases_ordered (ix : Ix) (plan : FaultPlan) (data : List Nat) (naccts : 
 the first one due to fail, with error `er`, then the run's trace is exactly the first `i + 1`
 steps and the runtime receives `toProgramError er`: the same `ProgramError` for program errors,
 `Custom((offset << 16) + n)` for variant `n` of a `#[star_frame_error(offset = …)]` enum. -/
-theorem error_code_preserved (ix : Ix) (plan : FaultPlan) (data : List Nat) (naccts : Nat)
+theorem error_code_preserved (ix : Ix) (plan : FaultPlan) (data : List Nat) (accts : List Bool)
     (i : Nat) (er : Err)
-    (hi : (failures ix plan data naccts)[i]? = some (some er))
-    (hpre : ∀ j, j < i → (failures ix plan data naccts)[j]? = some none) :
-    run ix plan data naccts = ((expected ix data).take (i + 1), .err (toProgramError er)) ∧
+    (hi : (failures ix plan data accts)[i]? = some (some er))
+    (hpre : ∀ j, j < i → (failures ix plan data accts)[j]? = some none) :
+    runI ix plan data accts = ((expected ix data accts).take (i + 1), .err (toProgramError er)) ∧
     (∀ e, toProgramError (.prog e) = e) ∧
     (∀ o n, toProgramError (.star o n) = .custom ((o <<< 16) + n)) := by
   refine ⟨?_, fun _ => rfl, ?_⟩
-  · have := walk_first (steps ix plan data naccts) i er
+  · have := walk_first (steps ix plan data accts) i er
       (by rw [steps_failures]; exact hi) (by rw [steps_failures]; exact hpre)
     rw [← run_eq_walk, steps_events] at this
+    rw [runI_eq_run]
     exact this
   · intro o n
     simp [toProgramError, starCode, Nat.shiftLeft_eq]
 
 /-- Nothing is due to fail ⇒ the run succeeds after performing every step. -/
-theorem run_ok (ix : Ix) (plan : FaultPlan) (data : List Nat) (naccts : Nat)
-    (h : ∀ o ∈ failures ix plan data naccts, o = none) :
-    run ix plan data naccts = (expected ix data, .ok) := by
-  rw [run_eq_walk, walk_all_none, steps_events]
+theorem run_ok (ix : Ix) (plan : FaultPlan) (data : List Nat) (accts : List Bool)
+    (h : ∀ o ∈ failures ix plan data accts, o = none) :
+    runI ix plan data accts = (expected ix data accts, .ok) := by
+  rw [runI_eq_run, run_eq_walk, walk_all_none, steps_events]
   · simp
   · intro s hs
     apply h
@@ -185,39 +200,40 @@ theorem run_ok (ix : Ix) (plan : FaultPlan) (data : List Nat) (naccts : Nat)
 /-- A failed `process` is never followed by any cleanup: if the handler is due to fail, the trace
 contains no `cleanup` / `extra_cleanup` step. -/
 theorem no_cleanup_after_failed_process (ix : Ix) (plan : FaultPlan) (data : List Nat)
-    (naccts : Nat) (hp : planned plan .process ix.id ≠ none) :
-    ∀ e ∈ (run ix plan data naccts).1, e.phase ≠ .cleanup ∧ e.phase ≠ .cextra := by
-  cases hpp : planned plan .process ix.id with
+    (accts : List Bool)
+    (hp : planned plan (processEvent ix data (ix.shape accts)) ≠ none) :
+    ∀ e ∈ (runI ix plan data accts).1, e.phase ≠ .cleanup ∧ e.phase ≠ .cextra := by
+  cases hpp : planned plan (processEvent ix data (ix.shape accts)) with
   | none => exact absurd hpp hp
   | some er =>
     intro e he
-    rw [run_eq_walk] at he
-    have hsplit : steps ix plan data naccts =
-        ((⟨.args, ix.id, [], none, none⟩, argsFail ix plan data)
-          :: (pairsOf (decodeFail plan naccts) 0 ix.set.decodeSteps
-              ++ pairsOf (plainFail plan) 0 ix.set.validateSteps))
-        ++ (processEvent ix data, some er)
-          :: (pairsOf (plainFail plan) 0 ix.set.cleanupSteps ++ []) := by
+    rw [runI_eq_run, run_eq_walk] at he
+    have hsplit : steps ix plan data accts =
+        ((argsEvent ix, argsFail ix plan data)
+          :: (pairsOf plan (ix.shape accts).decodeSteps
+              ++ pairsOf plan (ix.shape accts).validateSteps))
+        ++ (processEvent ix data (ix.shape accts), some er)
+          :: (pairsOf plan (ix.shape accts).cleanupSteps ++ []) := by
       simp [steps, hpp]
     rw [hsplit] at he
     have hmem := (walk_prefix_of_failing _ _ _ _).subset he
     simp only [List.map_cons, List.map_append, pairsOf_events, List.mem_append, List.mem_cons,
-      List.mem_singleton, List.not_mem_nil, or_false] at hmem
+      List.not_mem_nil, or_false] at hmem
     rcases hmem with (rfl | hd | hv) | rfl
-    · simp
+    · simp [argsEvent]
     · simp [events_decode_phase _ e hd]
     · have := events_validate_phase _ e hv
       simp only [validatePhases, List.mem_cons, List.not_mem_nil, or_false] at this
-      rcases this with h | h | h <;> simp [h]
+      rcases this with h | h | h | h | h | h <;> simp [h]
     · simp [processEvent]
 
-/-- A failed validation step (a field's validation or a struct's before / extra hook) is never
-followed by the handler: if any validation step is due to fail, the trace contains no `process`,
-`cleanup` or `extra_cleanup` step. -/
+/-- A failed validation step (a field's validation, its address check, a struct's before / extra
+hook — at any depth) is never followed by the handler: if any validation step is due to fail, the
+trace contains no `process`, `cleanup` or `extra_cleanup` step. -/
 theorem no_process_after_failed_validation (ix : Ix) (plan : FaultPlan) (data : List Nat)
-    (naccts : Nat)
-    (hv : ∃ o ∈ failsOf (plainFail plan) 0 ix.set.validateSteps, o ≠ none) :
-    ∀ e ∈ (run ix plan data naccts).1,
+    (accts : List Bool)
+    (hv : ∃ o ∈ failsOf plan (ix.shape accts).validateSteps, o ≠ none) :
+    ∀ e ∈ (runI ix plan data accts).1,
       e.phase ≠ .process ∧ e.phase ≠ .cleanup ∧ e.phase ≠ .cextra := by
   obtain ⟨o, ho, hne⟩ := hv
   rw [← pairsOf_failures] at ho
@@ -228,63 +244,78 @@ theorem no_process_after_failed_validation (ix : Ix) (plan : FaultPlan) (data : 
   | some er =>
     obtain ⟨V1, V2, hV⟩ := List.append_of_mem hpr
     intro e he
-    rw [run_eq_walk] at he
-    have hsplit : steps ix plan data naccts =
-        ((⟨.args, ix.id, [], none, none⟩, argsFail ix plan data)
-          :: (pairsOf (decodeFail plan naccts) 0 ix.set.decodeSteps ++ V1))
+    rw [runI_eq_run, run_eq_walk] at he
+    have hsplit : steps ix plan data accts =
+        ((argsEvent ix, argsFail ix plan data)
+          :: (pairsOf plan (ix.shape accts).decodeSteps ++ V1))
         ++ (ev, some er)
-          :: (V2 ++ ((processEvent ix data, planned plan .process ix.id)
-              :: (pairsOf (plainFail plan) 0 ix.set.cleanupSteps ++ []))) := by
+          :: (V2 ++ ((processEvent ix data (ix.shape accts),
+                planned plan (processEvent ix data (ix.shape accts)))
+              :: (pairsOf plan (ix.shape accts).cleanupSteps ++ []))) := by
       simp [steps, hV]
     rw [hsplit] at he
     have hmem := (walk_prefix_of_failing _ _ _ _).subset he
-    have hVev : ∀ x ∈ V1.map (·.1) ++ [ev], x ∈ events ix.set.validateSteps := by
+    have hVev : ∀ x ∈ V1.map (·.1) ++ [ev], x ∈ events (ix.shape accts).validateSteps := by
       intro x hx
-      rw [← pairsOf_events (plainFail plan) ix.set.validateSteps 0, hV]
+      rw [← pairsOf_events plan (ix.shape accts).validateSteps, hV]
       simp only [List.map_append, List.map_cons, List.mem_append, List.mem_cons,
-        List.mem_singleton, List.not_mem_nil, or_false] at hx ⊢
+        List.not_mem_nil, or_false] at hx ⊢
       rcases hx with hx | hx
       · exact Or.inl hx
       · exact Or.inr (Or.inl hx)
     simp only [List.map_cons, List.map_append, pairsOf_events, List.mem_append, List.mem_cons,
-      List.mem_singleton, List.not_mem_nil, or_false] at hmem
-    have hval : e ∈ events ix.set.validateSteps → _ := fun h => events_validate_phase _ e h
+      List.not_mem_nil, or_false] at hmem
+    have hval : e ∈ events (ix.shape accts).validateSteps → _ := fun h => events_validate_phase _ e h
     rcases hmem with (rfl | hd | h1) | rfl
-    · simp
+    · simp [argsEvent]
     · simp [events_decode_phase _ e hd]
     · have := hval (hVev e (by simp [h1]))
       simp only [validatePhases, List.mem_cons, List.not_mem_nil, or_false] at this
-      rcases this with h | h | h <;> simp [h]
+      rcases this with h | h | h | h | h | h <;> simp [h]
     · have := hval (hVev e (by simp))
       simp only [validatePhases, List.mem_cons, List.not_mem_nil, or_false] at this
-      rcases this with h | h | h <;> simp [h]
+      rcases this with h | h | h | h | h | h <;> simp [h]
 
-/-! ## Struct hooks, nesting, skipped fields, the funder / recipient cache -/
+/-! ## Struct hooks, field attributes, nesting, skipped fields, the funder / recipient cache -/
 
 /-- **Where the struct-level hooks sit.** The validation of a struct is: its `before_validation`
 hook (if any), then the code blocks of its fields in the order computed by the `pending` loop,
 then its `extra_validation` hook (if any). -/
-theorem validate_hooks_placed (sid : Nat) (b e x : Bool) (fs : List (FieldHdr × ASet)) :
-    (ASet.node sid b e x fs).validateSteps =
+theorem validate_hooks_placed (sid : Nat) (b e x : Bool) (fs : List (FieldHdr × RSet)) :
+    (RSet.node sid b e x fs).validateSteps =
       (if b then [evStep .vbefore sid] else [])
       ++ arrange (order (sigs fs)) (validateBlocks fs)
       ++ (if e then [evStep .vextra sid] else []) :=
   validateSteps_node sid b e x fs
 
-/-- The code block of a field: its own complete validation (recursively, for a nested set;
-nothing for `#[validate(skip)]`) followed by the funder / recipient caching. -/
-def fieldBlock (h : FieldHdr) (s : ASet) : List Step :=
-  (if h.skip then [] else s.validateSteps) ++ cacheEffs h s
+/-- The code block of a field: unless `#[validate(skip)]`, the `address` check, then `temp`, then
+`arg` (leaf fields), then its own complete validation (recursively, for a nested set or a
+container); in every case followed by the funder / recipient caching. -/
+def fieldBlock (h : FieldHdr) (s : RSet) : List Step :=
+  (if h.skip then [] else preSteps h s ++ s.validateSteps) ++ cacheEffs h s
+
+/-- **Field attributes**: with distinct field names, the block arranged under a leaf field's name
+is, in this order: the `address` check, `temp`, `arg`, the field's validation, the caching. -/
+theorem field_block_shape (fs : List (FieldHdr × RSet)) (h : FieldHdr) (p s : Nat) (pr : Bool)
+    (hnd : (names (sigs fs)).Nodup) (hm : (h, RSet.leaf p s pr) ∈ fs) (hs : h.skip = false) :
+    blockOf (validateBlocks fs) h.name =
+      (if h.addr then [evStep .vaddr p s] else [])
+      ++ (if h.temp then [evStep .vtemp p s] else [])
+      ++ (if h.arg then [evStep .varg p s] else [])
+      ++ [evStep .validate p s]
+      ++ cacheEffs h (.leaf p s pr) := by
+  rw [blockOf_field hnd hm]
+  simp [hs, preSteps, RSet.validateSteps]
 
 /-- **`requires` is respected through nesting.** In a struct with distinct field names and acyclic
 `requires`, if field `f` requires field `r` then the WHOLE block of `r` (all steps of a nested
-set included) runs before the whole block of `f` — at any depth, since this holds for every
-`node` of the tree. -/
-theorem nested_respects_requires (sid : Nat) (b e x : Bool) (fs : List (FieldHdr × ASet))
+set or container included) runs before the whole block of `f` — at any depth, since this holds
+for every `node` of the tree. -/
+theorem nested_respects_requires (sid : Nat) (b e x : Bool) (fs : List (FieldHdr × RSet))
     (hnd : (names (sigs fs)).Nodup) (hac : Acyclic (sigs fs))
-    (hf : FieldHdr) (sf : ASet) (hr : FieldHdr) (sr : ASet)
+    (hf : FieldHdr) (sf : RSet) (hr : FieldHdr) (sr : RSet)
     (hmf : (hf, sf) ∈ fs) (hmr : (hr, sr) ∈ fs) (hreq : hr.name ∈ hf.requires) :
-    ∃ l₁ l₂ l₃, (ASet.node sid b e x fs).validateSteps =
+    ∃ l₁ l₂ l₃, (RSet.node sid b e x fs).validateSteps =
       l₁ ++ fieldBlock hr sr ++ l₂ ++ fieldBlock hf sf ++ l₃ := by
   have hmem : (hf.name, hf.requires) ∈ sigs fs := List.mem_map.mpr ⟨(hf, sf), hmf, rfl⟩
   have hrn : hr.name ∈ names (sigs fs) :=
@@ -301,64 +332,140 @@ theorem nested_respects_requires (sid : Nat) (b e x : Bool) (fs : List (FieldHdr
 /-- **Every field's block runs exactly once, at every level of nesting**: with distinct field
 names in every struct, the validation steps are a permutation of the steps listed in declaration
 order (skipped fields contribute no validation, only their caching). -/
-theorem validate_each_block_once (t : ASet) (h : t.namesOK = true) :
+theorem validate_each_block_once (t : RSet) (h : t.namesOK = true) :
     t.validateSteps.Perm t.validateStepsDecl :=
   validateSteps_perm_decl t h
 
 /-- **The cache the handler sees** is filled by the first funder-marked / recipient-marked field
 in validation order (the generated code only sets an empty cache). -/
-theorem cache_is_first_marked (t : ASet) :
+theorem cache_is_first_marked (t : RSet) :
     t.cache.funder = firstFunder (t.validateSteps.flatMap (·.effs)) ∧
     t.cache.recipient = firstRecipient (t.validateSteps.flatMap (·.effs)) := by
   constructor
-  · simp [ASet.cache, applyEffs_funder]
-  · simp [ASet.cache, applyEffs_recipient]
+  · simp [RSet.cache, applyEffs_funder]
+  · simp [RSet.cache, applyEffs_recipient]
 
 /-- **The flat case**: a struct of leaves without hooks decodes and cleans up in declaration
-order and validates exactly `order fs` — so the theorems of the next section speak about traces. -/
+order and validates exactly `order fs` — so the theorems of the last section speak about traces. -/
 theorem flat_lifecycle (sid : Nat) (fs : List Field) :
-    events (flat sid fs).decodeSteps = (names fs).map (fun f => ⟨.decode, f, [], none, none⟩) ∧
-    events (flat sid fs).validateSteps = (order fs).map (fun f => ⟨.validate, f, [], none, none⟩) ∧
-    events (flat sid fs).cleanupSteps = (names fs).map (fun f => ⟨.cleanup, f, [], none, none⟩) := by
+    events (flat sid fs).decodeSteps = (names fs).map (fun f => ⟨.decode, f, f, [], none, none⟩) ∧
+    events (flat sid fs).validateSteps = (order fs).map (fun f => ⟨.validate, f, f, [], none, none⟩) ∧
+    events (flat sid fs).cleanupSteps = (names fs).map (fun f => ⟨.cleanup, f, f, [], none, none⟩) := by
   refine ⟨?_, ?_, ?_⟩
-  · rw [ASet.decodeSteps, flat_decodeOrder, events_map_evStep]
+  · rw [flat_eq]; simp only [RSet.decodeSteps]; exact decodeStepsF_flat fs
   · rw [flat_validateSteps, events_map_evStep]
-  · rw [flat_cleanupSteps, events_map_evStep]
+  · rw [flat_eq]; simp only [RSet.cleanupSteps, Bool.false_eq_true, if_false, List.append_nil]
+    exact cleanupStepsF_flat fs
+
+/-! ## Containers: `Option`, `Vec` / arrays, `Rest` -/
+
+/-- **An absent option runs nothing.** `Option<T>` decodes to nothing when no account is left, or
+when the next account is the program id (which it consumes); an iteration of `Rest<T>` only when no
+account is left. The decoded value then contributes no decode, validate or cleanup step. -/
+theorem option_absent (k : OptKind) (t : ASet) (a : Accts)
+    (h : a.rest = [] ∨ (k = .option ∧ a.rest.head? = some true)) :
+    ((ASet.opt k t).resolve a).1 = .seq [] ∧
+    ((ASet.opt k t).resolve a).2 = (if a.rest = [] then a else a.take1) ∧
+    (RSet.seq []).decodeSteps = [] ∧ (RSet.seq []).validateSteps = [] ∧
+    (RSet.seq []).cleanupSteps = [] := by
+  refine ⟨?_, ?_, by simp [RSet.decodeSteps, decodeStepsL],
+    by simp [RSet.validateSteps, validateStepsL], by simp [RSet.cleanupSteps, cleanupStepsL]⟩
+  · cases hr : a.rest with
+    | nil => simp [ASet.resolve, hr]
+    | cons x xs =>
+      rcases h with h | ⟨hk, hx⟩
+      · rw [hr] at h; cases h
+      · rw [hr] at hx; simp at hx; subst hx; subst hk
+        simp [ASet.resolve, hr]
+  · cases hr : a.rest with
+    | nil => simp [ASet.resolve, hr]
+    | cons x xs =>
+      rcases h with h | ⟨hk, hx⟩
+      · rw [hr] at h; cases h
+      · rw [hr] at hx; simp at hx; subst hx; subst hk
+        simp [ASet.resolve, hr]
+
+/-- **A present option is its inner set**: decoded from the same accounts, and its steps in every
+phase are exactly the inner set's steps. -/
+theorem option_present (k : OptKind) (t : ASet) (a : Accts) (x : Bool) (xs : List Bool)
+    (hr : a.rest = x :: xs) (h : ¬ (k = .option ∧ x = true)) :
+    ((ASet.opt k t).resolve a) = (.seq [(t.resolve a).1], (t.resolve a).2) ∧
+    (RSet.seq [(t.resolve a).1]).decodeSteps = (t.resolve a).1.decodeSteps ∧
+    (RSet.seq [(t.resolve a).1]).validateSteps = (t.resolve a).1.validateSteps ∧
+    (RSet.seq [(t.resolve a).1]).cleanupSteps = (t.resolve a).1.cleanupSteps := by
+  refine ⟨by simp [ASet.resolve, hr, h], by simp [RSet.decodeSteps, decodeStepsL],
+    by simp [RSet.validateSteps, validateStepsL], by simp [RSet.cleanupSteps, cleanupStepsL]⟩
+
+/-- **A container runs its elements in order in every phase** (`Vec<T>`, `[T; N]`, `Rest<T>`):
+first element completely, then the second, … -/
+theorem container_in_order (rs : List RSet) :
+    (RSet.seq rs).decodeSteps = rs.flatMap (·.decodeSteps) ∧
+    (RSet.seq rs).validateSteps = rs.flatMap (·.validateSteps) ∧
+    (RSet.seq rs).cleanupSteps = rs.flatMap (·.cleanupSteps) := by
+  refine ⟨?_, ?_, ?_⟩
+  · simp only [RSet.decodeSteps]; exact decodeStepsL_flatMap rs
+  · simp only [RSet.validateSteps]; exact validateStepsL_flatMap rs
+  · simp only [RSet.cleanupSteps]; exact cleanupStepsL_flatMap rs
+
+/-- **One account per leaf, in account order** — across structs, containers and options: the
+slots `decode_accounts` hands to the present leaves are strictly increasing (so no account is
+decoded, validated or cleaned up as two different leaves), start at the first unconsumed account
+and stay below the position reached. -/
+theorem one_account_per_leaf (t : ASet) (a : Accts) :
+    a.pos ≤ (t.resolve a).2.pos ∧
+    (∀ s ∈ (t.resolve a).1.slots, a.pos ≤ s ∧ s < (t.resolve a).2.pos) ∧
+    (t.resolve a).1.slots.Pairwise (· < ·) :=
+  resolve_slots t a
 
 /-- non-vacuity: fields `a(requires c), b(requires a), c`; a fault in the validation of `a`
 (second in `order = [c, a, b]`) with a custom error of offset 7, variant 3. -/
 example :
-    let ix : Ix := ⟨5, 1, flat 0 [(0, [2]), (1, [0]), (2, [])]⟩
-    run ix [⟨.validate, 0, .star 7 3⟩] [9] 3 =
-      ([⟨.args, 5, [], none, none⟩, ⟨.decode, 0, [], none, none⟩, ⟨.decode, 1, [], none, none⟩,
-        ⟨.decode, 2, [], none, none⟩, ⟨.validate, 2, [], none, none⟩,
-        ⟨.validate, 0, [], none, none⟩], .err (.custom 458755)) ∧
-    run ix [] [9, 1] 4 = (expected ix [9, 1], .ok) ∧
-    (run ix [] [9] 2).2 = .err (.custom 9004) ∧
-    (run ix [⟨.process, 5, .prog (.builtin 2)⟩] [9] 3).2 = .err (.builtin 2) ∧
-    (run ix [⟨.process, 5, .prog (.builtin 2)⟩] [9] 3).1.length = 8 := by decide
+    let set : ASet := .node 0 false false false
+      [(⟨0, [2], false, false, false, false, false, false⟩, .leaf 0),
+       (⟨1, [0], false, false, false, false, false, false⟩, .leaf 1),
+       (⟨2, [], false, false, false, false, false, false⟩, .leaf 2)]
+    let ix : Ix := ⟨5, 1, set⟩
+    let a3 := [false, false, false]
+    ((runI ix [⟨.validate, 0, none, .star 7 3⟩] [9] a3).1.map (fun e => (e.phase, e.tag)),
+      (runI ix [⟨.validate, 0, none, .star 7 3⟩] [9] a3).2) =
+      ([(.args, 5), (.decode, 0), (.decode, 1), (.decode, 2), (.validate, 2), (.validate, 0)],
+        .err (.custom 458755)) ∧
+    runI ix [] [9, 1] (a3 ++ [false]) = (expected ix [9, 1] (a3 ++ [false]), .ok) ∧
+    (runI ix [] [9] [false, false]).2 = .err (.custom 9004) ∧
+    (runI ix [⟨.process, 5, none, .prog (.builtin 2)⟩] [9] a3).2 = .err (.builtin 2) ∧
+    (runI ix [⟨.process, 5, none, .prog (.builtin 2)⟩] [9] a3).1.length = 8 := by decide
 
-/-- non-vacuity for hooks, nesting, skip and the cache: outer struct 1 (before + extra hooks) with
-fields `a` = leaf 0 (requires `b`, funder), `b` = inner struct 2 (extra hook, extra_cleanup;
-fields `x` = leaf 1 requiring `y`, `y` = leaf 2 marked funder), `c` = leaf 3 (skipped, recipient).
-Validation: before(1); block b = [validate 2 (+cache funder 2), validate 1, extra(2)];
-validate 0 (funder already set); c skipped but cached as recipient; extra(1). -/
+/-- non-vacuity for hooks, nesting, skip, field attributes, containers and the cache. Outer struct
+1 (before + extra hooks): `a` = leaf 0 (requires `b`, funder, address + temp + arg),
+`b` = inner struct 2 (extra hook, extra_cleanup; `x` = leaf 1 requiring `y`, `y` = leaf 2 funder),
+`c` = leaf 3 (skipped, recipient), `o` = `Option<leaf 4>`, `v` = two elements of leaf 5.
+With accounts `[n, n, n, n, P, n, n]` the option is absent (slot 4 is the program id). -/
 example :
     let inner : ASet := .node 2 false true true
-      [(⟨0, [1], false, false, false⟩, .leaf 1), (⟨1, [], false, true, false⟩, .leaf 2)]
+      [(⟨0, [1], false, false, false, false, false, false⟩, .leaf 1),
+       (⟨1, [], false, true, false, false, false, false⟩, .leaf 2)]
     let outer : ASet := .node 1 true true false
-      [(⟨0, [1], false, true, false⟩, .leaf 0), (⟨1, [], false, false, false⟩, inner),
-       (⟨2, [], true, false, true⟩, .leaf 3)]
+      [(⟨0, [1], false, true, false, true, true, true⟩, .leaf 0),
+       (⟨1, [], false, false, false, false, false, false⟩, inner),
+       (⟨2, [], true, false, true, false, false, false⟩, .leaf 3),
+       (⟨3, [], false, false, false, false, false, false⟩, .opt .option (.leaf 4)),
+       (⟨4, [], false, false, false, false, false, false⟩, .seq [.leaf 5, .leaf 5])]
     let ix : Ix := ⟨7, 0, outer⟩
-    (events outer.validateSteps).map (fun e => (e.phase, e.tag)) =
-      [(.vbefore, 1), (.validate, 2), (.validate, 1), (.vextra, 2), (.validate, 0), (.vextra, 1)] ∧
-    outer.cache = ⟨some 2, some 3⟩ ∧
-    (events outer.cleanupSteps).map (fun e => (e.phase, e.tag)) =
-      [(.cleanup, 0), (.cleanup, 1), (.cleanup, 2), (.cextra, 2), (.cleanup, 3)] ∧
-    (run ix [⟨.vextra, 2, .star 7 4⟩] [] 4).2 = .err (.custom 458756) ∧
-    ((run ix [⟨.vextra, 2, .star 7 4⟩] [] 4).1.map (fun e => (e.phase, e.tag))).getLast? =
-      some (.vextra, 2) ∧
-    outer.namesOK = true ∧ (expectedDecl ix []).Nodup := by decide
+    let accts := [false, false, false, false, true, false, false]
+    let r := ix.shape accts
+    (events r.decodeSteps).map (fun e => (e.tag, e.slot)) = [(0, 0), (1, 1), (2, 2), (3, 3), (5, 5), (5, 6)] ∧
+    (events r.validateSteps).map (fun e => (e.phase, e.tag, e.slot)) =
+      [(.vbefore, 1, 0), (.validate, 2, 2), (.validate, 1, 1), (.vextra, 2, 0),
+       (.vaddr, 0, 0), (.vtemp, 0, 0), (.varg, 0, 0), (.validate, 0, 0),
+       (.validate, 5, 5), (.validate, 5, 6), (.vextra, 1, 0)] ∧
+    r.cache = ⟨some 2, some 3⟩ ∧
+    (events r.cleanupSteps).map (fun e => (e.phase, e.tag, e.slot)) =
+      [(.cleanup, 0, 0), (.cleanup, 1, 1), (.cleanup, 2, 2), (.cextra, 2, 0), (.cleanup, 3, 3),
+       (.cleanup, 5, 5), (.cleanup, 5, 6)] ∧
+    (runI ix [⟨.vextra, 2, none, .star 7 4⟩] [] accts).2 = .err (.custom 458756) ∧
+    (runI ix [⟨.validate, 5, some 6, .prog (.builtin 4)⟩] [] accts).2 = .err (.builtin 4) ∧
+    (runI ix [⟨.vaddr, 0, none, .prog (.builtin 4)⟩] [] accts).2 = .err (.custom 1002) ∧
+    r.namesOK = true ∧ (expectedDecl ix [] accts).Nodup := by decide
 
 /-! ## Order of field validation -/
 
